@@ -22,11 +22,13 @@ Obs == ndJsonDeserialize(IOEnv.REP_FILE)
 Null == -1
 
 \* hidetask: "" (no statement) and "@none" hide nothing, "@all" everything, a flag name the tasks that carry the flag,
-\* "~flag" those that do not (flags as the generator assigned them)
+\* "~flag" those that do not (flags as the generator assigned them); isleaf() / ~isleaf() the tasks with / without sub-tasks... hidden
 HasFlag(T, f) == \E i \in 1..Len(T.flags) : T.flags[i] = f
 Hidden(o, t) == LET h == o.def.hide IN
    IF h = "" \/ h = "@none" THEN FALSE
    ELSE IF h = "@all" THEN TRUE
+   ELSE IF h = "isleaf()" THEN o.tasks[t].leaf              \* the query function of the language: true for tasks without sub-tasks
+   ELSE IF h = "~isleaf()" THEN ~o.tasks[t].leaf            \* (the idiom for "leaves only")
    ELSE IF SubSeq(h, 1, 1) = "~" THEN ~HasFlag(o.tasks[t], SubSeq(h, 2, Len(h)))
    ELSE HasFlag(o.tasks[t], h)
 Listed(o) == LET n == Len(o.tasks)
